@@ -81,7 +81,7 @@ def asp(c, n):
     return c.old.f('Factory.__name__', c.old.f('Node.factory', n)) == atom('analysis')
 
 
-@contract(W, 'dawgie/pl/schedule.py', 'organize', props=['C02', 'C04'])
+@contract(W, 'dawgie/pl/schedule.py', 'organize', props=['C02', 'C04', 'C12'])
 class organize(ContractBase):
     params = {'task_names': Bag(ATOM), 'runid': Opt(INT), 'targets': TGTS, 'event': Opt(ATOM)}
     defaults = {'runid': None, 'targets': None, 'event': None}
